@@ -16,7 +16,7 @@ import Mathlib.Data.Prod.Lex
 
 open Finset BigOperators Matrix
 
-namespace GT
+namespace GT.Reflect
 
 variable {K : Type*} [Field K] {n : ℕ}
 
@@ -113,4 +113,4 @@ def fixOrderPlain (ε : K) (es : List (EigInfo K)) : List ℕ :=
 
 end ordered
 
-end GT
+end GT.Reflect
